@@ -251,7 +251,7 @@ func alwaysNonNilError(g *ssa.Function) bool {
 // (m[name], ok) of one comma-ok lookup keyed by its parameter, or (zero, false).  Returns the
 // struct field holding the map ("Environment.filters"), and the index of the key parameter.
 func lookupHelper(g *ssa.Function) (owner, field string, keyParam int, ok bool) {
-	if g == nil || g.Pkg == nil || g.Pkg.Pkg.Path() != twigPath || len(g.Blocks) == 0 || g.Signature.Results().Len() != 2 {
+	if g == nil || !isTwigFn(g) || len(g.Blocks) == 0 || g.Signature.Results().Len() != 2 {
 		return "", "", 0, false
 	}
 	if !types.Identical(g.Signature.Results().At(1).Type().Underlying(), types.Typ[types.Bool]) {
@@ -990,7 +990,7 @@ func checkPolicyQueriesPure(w *World, r *Report) {
 							}
 						}
 					}
-					if h := x.Common().StaticCallee(); h != nil && h.Pkg != nil && h.Pkg.Pkg.Path() == twigPath {
+					if h := x.Common().StaticCallee(); h != nil && isTwigFn(h) {
 						scan(h, d+1)
 					}
 					// function literals passed along
